@@ -10,12 +10,14 @@ print("| Change | What it does | What it needs | Reported by (quick tier) |")
 print("|---|---|---|---|")
 for n in sorted(os.listdir(os.path.join(HERE, "seeded"))):
     d = os.path.join(HERE, "seeded", n)
-    if not os.path.isdir(d):
+    if not os.path.isdir(d) or n.startswith("_"):
         continue
     m = json.load(open(os.path.join(d, "meta.json")))
+    # own property: the latest tools/seeded.py run (stored in meta.json); other properties: the last full matrix run
+    by = [f"{p}: {', '.join(l.split('oracle=')[1].split()[0].split('.', 1)[-1] for l in r.get('quick', {}).get('lines', []) if 'oracle=' in l)[:80]}"
+          for p, r in m.get("checks", {}).items() if r.get("quick", {}).get("exit") == 1]
+    own = set(m.get("checks", {}))
     if n in mat:
-        by = [f"{p}: {', '.join(o.split('.', 1)[1] if '.' in o else o for o in v['oracles'][:2])}" for p, v in mat[n].items() if v["exit"] == 1]
-    else:
-        by = [f"{p}: {', '.join(l.split('oracle=')[1].split()[0] for l in r.get('quick', {}).get('lines', []) if 'oracle=' in l)[:80]}"
-              for p, r in m.get("checks", {}).items() if r.get("quick", {}).get("exit") == 1]
+        by += [f"{p}: {', '.join(o.split('.', 1)[1] if '.' in o else o for o in v['oracles'][:2])}" for p, v in mat[n].items()
+               if v["exit"] == 1 and p not in own]
     print(f"| {n} | {m['description']} | {m['needs']} | {'; '.join(by) or 'NOT REPORTED'} |")
